@@ -1661,19 +1661,16 @@ namespace igris
         iterator insert(iterator pos, const_iterator first, const_iterator last)
         {
             size_t _pos = pos - m_data;
-            size_t _first = first - m_data;
-            size_t _last = last - m_data;
+            // The range is copied before anything moves: it may lie in this
+            // vector (the elements shift, the buffer may be reallocated) or
+            // anywhere else.
+            vector tmp(first, last);
+            size_t sz = tmp.size();
+            size_t oldsize = open_gap(_pos, sz);
+            for (size_t i = 0; i < sz; ++i)
+                fill_gap(_pos + i, oldsize, igris::move(tmp.m_data[i]));
 
-            size_t sz = _last - _first;
-            reserve(m_size + sz);
-            m_size += sz;
-
-            iterator first_it = m_data + _pos;
-            iterator last_it = igris::prev((iterator)end(), sz);
-            igris::move_backward(first_it, last_it, (iterator)end());
-            igris::copy(m_data + _first, m_data + _last, first_it);
-
-            return first_it;
+            return m_data + _pos;
         }
 
         iterator insert(int pos, const T &value)
